@@ -5,6 +5,7 @@ import (
 	"fmt"
 	"math/rand"
 	"reflect"
+	"sort"
 	"strings"
 	"sync"
 
@@ -126,12 +127,67 @@ func firstDiff(a, b [][]gen.Triple) (col int, idx int, desc string) {
 	return -2, 0, ""
 }
 
+// c03Types: the shared catalogue plus the round-3 extension types.
+func c03Types() []*gen.Entry {
+	return append(append([]*gen.Entry(nil), gen.Catalog...), gen.ExtCatalog...)
+}
+
+// splitRows cuts a column stream into rows (a row starts at repetition level 0).
+func splitRows(col []gen.Triple) [][]gen.Triple {
+	var out [][]gen.Triple
+	for _, t := range col {
+		if t.Rep == 0 || len(out) == 0 {
+			out = append(out, nil)
+		}
+		out[len(out)-1] = append(out[len(out)-1], t)
+	}
+	return out
+}
+
+// unorderedDiff compares streams up to the order of map entries: per column and per row the
+// multisets of values, of repetition levels and of definition levels must agree (each of them is
+// invariant under a permutation of the entries of any map of the row, nested maps included; the
+// (rep, def) pairing is not, because the first entry of a map carries the parent's repetition
+// level). A null / non-null flip of any position changes the multiset of definition levels.
+func unorderedDiff(a, b [][]gen.Triple) (col int, row int, desc string) {
+	if len(a) != len(b) {
+		return -1, 0, fmt.Sprintf("column count %d vs %d", len(a), len(b))
+	}
+	for c := range a {
+		ra, rb := splitRows(a[c]), splitRows(b[c])
+		if len(ra) != len(rb) {
+			return c, 0, fmt.Sprintf("row count expected %d got %d", len(ra), len(rb))
+		}
+		for i := range ra {
+			for what, key := range map[string]func(gen.Triple) string{
+				"values":            func(t gen.Triple) string { return fmt.Sprint(t.Null, t.Val) },
+				"repetition levels": func(t gen.Triple) string { return fmt.Sprint(t.Rep) },
+				"definition levels": func(t gen.Triple) string { return fmt.Sprint(t.Def) },
+			} {
+				ka, kb := make([]string, len(ra[i])), make([]string, len(rb[i]))
+				for j, t := range ra[i] {
+					ka[j] = key(t)
+				}
+				for j, t := range rb[i] {
+					kb[j] = key(t)
+				}
+				sort.Strings(ka)
+				sort.Strings(kb)
+				if strings.Join(ka, ",") != strings.Join(kb, ",") {
+					return c, i, fmt.Sprintf("%s of the row differ (as multisets): expected %v got %v", what, ra[i], rb[i])
+				}
+			}
+		}
+	}
+	return -2, 0, ""
+}
+
 func RunC03(ctx *core.Ctx) {
 	ctx.SetRule("catalogue of generated Go struct types (required/optional-tag/pointer/slice/list/nested list/struct/pointer-to-struct/slice-of-struct leaves of all physical kinds) x random rows with null-run patterns around multiples of 8 and 64 x write batchings x 6 ingestion paths; expected streams from the harness reference shredder, which is compared row by row with the Lean `shred` (theorem assemble_shred); non-trivial = at least one optional or repeated leaf column holding both null and non-null entries; " + c03nsRule)
 	ncases := ctx.Scale(6, 60) // per catalogue entry
 	var wg sync.WaitGroup
 	sem := make(chan struct{}, 16)
-	for ei, e := range gen.Catalog {
+	for ei, e := range c03Types() {
 		wg.Add(1)
 		sem <- struct{}{}
 		go func(ei int, e *gen.Entry) {
@@ -180,10 +236,16 @@ func RunC03(ctx *core.Ctx) {
 			rows := e.NewRows(n)
 			gen.FillRows(r, rows, &gen.Profile{NullProb: 0.3, MaxLen: 3})
 			ctx.Case(fmt.Sprintf("%s/%d/%v", e.Name, k, rows.Interface()), true)
+			// reference streams, map entries in key order
+			var all gen.Shredder
+			var valTexts []string
+			for i := 0; i < n; i++ {
+				valTexts = append(valTexts, all.ShredRow(e.Schema, rows.Index(i)))
+			}
 			back, err := e.Reconstruct(rows.Interface())
 			if err != nil {
 				ctx.Fail("L1", "reconstruct-error map "+errClass(err), "Schema.Reconstruct(Deconstruct(v)) failed: "+err.Error(), map[string]any{"type": e.Name, "rows": fmt.Sprintf("%+v", rows.Interface())})
-			} else if ok, diff := gen.CanonEqual(rows, reflect.ValueOf(back), e.Name); !ok {
+			} else if ok, diff := gen.CanonEqualOpt(rows, reflect.ValueOf(back), e.Name); !ok {
 				ctx.Fail("L1", "reconstruct-differs map", "Schema.Reconstruct(Deconstruct(v)) differs from v: "+diff, map[string]any{"type": e.Name, "rows": fmt.Sprintf("%+v", rows.Interface()), "diff": diff})
 			}
 			for _, p := range c03Paths {
@@ -191,6 +253,19 @@ func RunC03(ctx *core.Ctx) {
 				if err != nil {
 					ctx.Fail("L1", "path-error map path="+p.name+" "+errClass(err), "ingestion path failed on a valid value: "+err.Error(), map[string]any{"type": e.Name, "rows": fmt.Sprintf("%+v", rows.Interface())})
 					continue
+				}
+				// the stored streams, up to the order of map entries: which positions are null
+				// (definition levels) is the same on every path
+				if cols, err := gen.ReadColumns(file); err != nil {
+					ctx.Fail("L1", "readback-error map path="+p.name+" "+errClass(err), "stored streams cannot be read back: "+err.Error(), map[string]any{"type": e.Name, "rows": fmt.Sprintf("%+v", rows.Interface())})
+				} else if c, i, desc := unorderedDiff(all.Cols, cols); c != -2 {
+					cd := "?"
+					if c >= 0 {
+						cd = colDesc(e.Schema, c)
+					}
+					ctx.Fail("L1", "stream-mismatch map path="+p.name+" col="+cd,
+						fmt.Sprintf("path %s stores a different Dremel stream than the documented mapping (compared up to map entry order): column %d row %d: %s", p.name, c, i, desc),
+						map[string]any{"type": e.Name, "path": p.name, "schema": gen.NodeText(e.Schema), "rows": valTexts, "go_rows": fmt.Sprintf("%+v", rows.Interface()), "column": c, "row": i})
 				}
 				got, err := e.ReadAll(bytes.NewReader(file), int64(len(file)))
 				if err != nil {
@@ -286,7 +361,7 @@ func c03Case(ctx *core.Ctx, d interface {
 	back, err := e.Reconstruct(rows.Interface())
 	if err != nil {
 		ctx.Fail("L1", "reconstruct-error "+errClass(err), "Schema.Reconstruct(Deconstruct(v)) failed: "+err.Error(), map[string]any{"type": e.Name, "rows": valTexts})
-	} else if ok, diff := gen.CanonEqual(rows, reflect.ValueOf(back), e.Name); !ok {
+	} else if ok, diff := gen.CanonEqualOpt(rows, reflect.ValueOf(back), e.Name); !ok {
 		ctx.Fail("L1", "reconstruct-differs", "Schema.Reconstruct(Deconstruct(v)) differs from v: "+diff, map[string]any{"type": e.Name, "rows": valTexts, "diff": diff})
 	}
 }
